@@ -1,7 +1,7 @@
 (* Proofs about the model of sm4_gcm.go, second part: J0, the counter, GCTR, GCM-AE / GCM-AD, the round
    trip and the tag.  Property theorems are restated in Props/C12.v. *)
 From Coq Require Import List NArith Arith Bool Lia ZifyN ZifyNat ZifyBool Btauto.
-From GmsmVerif Require Import Lib.Outcome SM4.SM4Spec SM4.SM4Proofs SM4.ModesSpec SM4.ModesModel SM4.ModesProofs
+From GmsmVerif Require Import Lib.Outcome SM4.SM4Spec SM4.SM4Lemmas SM4.ModesSpec SM4.ModesModel SM4.ModesProofs
   SM4.GCMSpec SM4.GCMField SM4.GCMModel SM4.GCMProofs.
 Import ListNotations.
 Local Open Scope nat_scope.
@@ -73,6 +73,53 @@ Proof.
 Qed.
 
 (* ---------- GCTR -------------------------------------------------------------------------------------------- *)
+(* closed form of the specification's GCTR over an indexed family of blocks *)
+Lemma gctr_blocks_map (CIPH : list N -> list N) (f : nat -> list N) k : forall s cb,
+  gctr_blocks CIPH cb (map f (seq s k)) =
+  map (fun j => xor_bytes (f j) (CIPH (iterf (j - s) inc32 cb))) (seq s k).
+Proof.
+  induction k as [|k IH]; intros s cb; [reflexivity|].
+  rewrite <- cons_seq, !map_cons. cbn [gctr_blocks]. rewrite Nat.sub_diag. cbn [iterf]. f_equal.
+  rewrite IH. apply map_ext_in. intros j Hj. apply in_seq in Hj.
+  replace (j - s) with (S (j - S s)) by lia. rewrite iterf_succ_r. reflexivity.
+Qed.
+
+
+(* ---------- GCTR is an involution ------------------------------------------------------------------------ *)
+Lemma xor_bytes_app a : forall k b r, length a = length k ->
+  xor_bytes (a ++ b) (k ++ r) = xor_bytes a k ++ xor_bytes b r.
+Proof.
+  induction a as [|x a IH]; intros [|y k] b r Hl; try discriminate; [reflexivity|].
+  cbn [app xor_bytes]. rewrite IH by (cbn in Hl; lia). reflexivity.
+Qed.
+
+Lemma xor_bytes_short a : forall k r, length a <= length k -> xor_bytes a (k ++ r) = xor_bytes a k.
+Proof.
+  induction a as [|x a IH]; intros [|y k] r Hl; try reflexivity; [cbn in Hl; lia|].
+  cbn [app xor_bytes]. rewrite IH by (cbn in Hl; lia). reflexivity.
+Qed.
+
+Lemma xor_bytes_nil_r a : xor_bytes a [] = [].
+Proof. destruct a; reflexivity. Qed.
+
+Lemma keystream_form n : forall X (Kf : nat -> list N), (forall j, length (Kf j) = 16) -> cdiv (length X) <= n ->
+  concat (map (fun j => xor_bytes (blk X j) (Kf j)) (seq 0 n)) = xor_bytes X (concat (map Kf (seq 0 n))).
+Proof.
+  induction n as [|n IH]; intros X Kf HK Hn.
+  - destruct X; [reflexivity|]. unfold cdiv in Hn. cbn [length] in Hn. lia.
+  - rewrite <- cons_seq, !map_cons. cbn [concat].
+    rewrite <- seq_shift, !map_map.
+    rewrite (map_ext (fun j => xor_bytes (blk X (S j)) (Kf (S j))) (fun j => xor_bytes (blk (skipn 16 X) j) (Kf (S j))))
+      by (intros j; rewrite blk_skipn; reflexivity).
+    rewrite (IH (skipn 16 X) (fun j => Kf (S j))) by (try (intros j; apply HK); rewrite skipn_length; unfold cdiv in *; lia).
+    replace (blk X 0) with (firstn 16 X) by (unfold blk; rewrite Nat.mul_0_r; reflexivity).
+    destruct (Nat.le_gt_cases 16 (length X)) as [Hge|Hlt].
+    + rewrite <- (firstn_skipn 16 X) at 3. rewrite xor_bytes_app; [reflexivity|].
+      rewrite firstn_length, HK. lia.
+    + rewrite (skipn_all2 X) by lia. cbn [xor_bytes].
+      rewrite firstn_all2 by lia. rewrite app_nil_r. symmetry. apply xor_bytes_short. rewrite HK. lia.
+Qed.
+
 Section Cipher.
   Variable E : list N -> list N -> list N.
   Hypothesis E_len : forall k b, length (E k b) = 16.
@@ -83,17 +130,6 @@ Section Cipher.
 
   Lemma E_blk16 k b : blk16 (E k b).
   Proof. split; [apply E_len|apply E_ok]. Qed.
-
-  (* closed form of the specification's GCTR over an indexed family of blocks *)
-  Lemma gctr_blocks_map (CIPH : list N -> list N) (f : nat -> list N) k : forall s cb,
-    gctr_blocks CIPH cb (map f (seq s k)) =
-    map (fun j => xor_bytes (f j) (CIPH (iterf (j - s) inc32 cb))) (seq s k).
-  Proof.
-    induction k as [|k IH]; intros s cb; [reflexivity|].
-    rewrite <- cons_seq, !map_cons. cbn [gctr_blocks]. rewrite Nat.sub_diag. cbn [iterf]. f_equal.
-    rewrite IH. apply map_ext_in. intros j Hj. apply in_seq in Hj.
-    replace (j - s) with (S (j - S s)) by lia. rewrite iterf_succ_r. reflexivity.
-  Qed.
 
   Lemma ctr_loop_spec key Y P k : forall i out,
     (forall j, i <= j < i + k -> length (nth j Y []) = 16 /\ length (blk P (j - 1)) = 16) ->
@@ -242,40 +278,6 @@ Section Cipher2.
     rewrite ctr_crypt_spec by assumption. reflexivity.
   Qed.
 
-  (* ---------- GCTR is an involution ------------------------------------------------------------------------ *)
-  Lemma xor_bytes_app a : forall k b r, length a = length k ->
-    xor_bytes (a ++ b) (k ++ r) = xor_bytes a k ++ xor_bytes b r.
-  Proof.
-    induction a as [|x a IH]; intros [|y k] b r Hl; try discriminate; [reflexivity|].
-    cbn [app xor_bytes]. rewrite IH by (cbn in Hl; lia). reflexivity.
-  Qed.
-
-  Lemma xor_bytes_short a : forall k r, length a <= length k -> xor_bytes a (k ++ r) = xor_bytes a k.
-  Proof.
-    induction a as [|x a IH]; intros [|y k] r Hl; try reflexivity; [cbn in Hl; lia|].
-    cbn [app xor_bytes]. rewrite IH by (cbn in Hl; lia). reflexivity.
-  Qed.
-
-  Lemma xor_bytes_nil_r a : xor_bytes a [] = [].
-  Proof. destruct a; reflexivity. Qed.
-
-  Lemma keystream_form n : forall X (Kf : nat -> list N), (forall j, length (Kf j) = 16) -> cdiv (length X) <= n ->
-    concat (map (fun j => xor_bytes (blk X j) (Kf j)) (seq 0 n)) = xor_bytes X (concat (map Kf (seq 0 n))).
-  Proof.
-    induction n as [|n IH]; intros X Kf HK Hn.
-    - destruct X; [reflexivity|]. unfold cdiv in Hn. cbn [length] in Hn. lia.
-    - rewrite <- cons_seq, !map_cons. cbn [concat].
-      rewrite <- seq_shift, !map_map.
-      rewrite (map_ext (fun j => xor_bytes (blk X (S j)) (Kf (S j))) (fun j => xor_bytes (blk (skipn 16 X) j) (Kf (S j))))
-        by (intros j; rewrite blk_skipn; reflexivity).
-      rewrite (IH (skipn 16 X) (fun j => Kf (S j))) by (try (intros j; apply HK); rewrite skipn_length; unfold cdiv in *; lia).
-      replace (blk X 0) with (firstn 16 X) by (unfold blk; rewrite Nat.mul_0_r; reflexivity).
-      destruct (Nat.le_gt_cases 16 (length X)) as [Hge|Hlt].
-      + rewrite <- (firstn_skipn 16 X) at 3. rewrite xor_bytes_app; [reflexivity|].
-        rewrite firstn_length, HK. lia.
-      + rewrite (skipn_all2 X) by lia. cbn [xor_bytes].
-        rewrite firstn_all2 by lia. rewrite app_nil_r. symmetry. apply xor_bytes_short. rewrite HK. lia.
-  Qed.
 End Cipher2.
 
 Lemma xor_bytes_length_le a : forall b, length a <= length b -> length (xor_bytes a b) = length a.
